@@ -516,5 +516,6 @@ func runServe(args []string) string {
 
 func init() {
 	runners["SESS"] = runSess
+	runners["GSESS"] = runSess // the same run, for Session.Send / Flush / doUpgrade as translated (Gen/Session.lean)
 	runners["SERVE"] = runServe
 }
